@@ -47,8 +47,9 @@ def drive(ctx, sess):
         nonlocal n_runs
         names = ["suspect_min", "suspect_max", "fail_min", "fail_max"]
         exprs = {nm: fx_checks.rand_expr(r, r.choice([0, 1, 2]), atoms) for nm in names}
-        start = r.choice(["2020-01-01", "2020-03-10", "2020-11-20", "2021-06-01", "2019-12-15", "2020-02-29"])
-        days = r.choice([1, 10, 30, 90, 200, 364])
+        start = r.choice(["2020-01-01", "2020-03-10", "2020-11-20", "2021-06-01", "2019-12-15", "2020-02-29",
+                          "2020-12-31", "2021-12-31", "2021-12-30", "2020-12-30"])
+        days = r.choice([1, 1, 2, 10, 30, 90, 200, 364, 365])
         end = (pd.Timestamp(start) + pd.Timedelta(days=days)).strftime("%Y-%m-%d")
         if dates:
             start, end = dates
@@ -95,10 +96,14 @@ def drive(ctx, sess):
         # one creator object serves several requests; every other creator gets them all for the same dates (so that only
         # the bounding box tells the requests apart)
         same_dates = ("2020-03-10", "2020-04-09") if g % 2 else None
+        # date ranges at the seams of the calendar: one day on New Year's Eve (leap and common year), a whole year,
+        # the leap day, a range ending on Jan 1
+        seams = [("2020-12-31", "2021-01-01"), ("2021-12-31", "2022-01-01"), ("2021-01-01", "2022-01-01"),
+                 ("2020-02-29", "2020-03-01"), ("2020-12-01", "2021-01-01"), ("2019-12-31", "2020-12-30")]
         for b in range(ctx.pick(4, 10)):
             x1, x2 = sorted([r.choice(lon) + r.choice([0, 0, -1]), r.choice(lon) + r.choice([0, 0, 1])])
             y1, y2 = sorted([r.choice(lat) + r.choice([0, 0, -1]), r.choice(lat) + r.choice([0, 0, 1])])
-            one_run(creator, lat, lon, grid, [x1, y1, x2, y2], dates=same_dates)
+            one_run(creator, lat, lon, grid, [x1, y1, x2, y2], dates=same_dates or (seams[(g + b) % len(seams)] if b < 2 else None))
         # (b) cells chosen for the box: half a, half a + 2k inside it (an odd cell is left without data), so that the
         #     population standard deviation is exactly k and every expression can be judged; outside cells are arbitrary
         for b in range(ctx.pick(4, 10)):
